@@ -26,6 +26,18 @@ level that lost their last reference. This file models that code:
 
 `upPre`/`lowPre` are the level numbers stored in the nodes of the two levels
 (`upper_no_pre`/`lower_no_pre`); for `level_down` they are `u` and `u + 1`.
+
+Files of the development (all under `OxiddModel/Reorder/`):
+`SwapStore` (this model), `SetOrderStore` (model of `set_var_order_common`),
+`SwapStoreHeap` (heap and reference-count lemmas), `SwapStoreInv` (the loop invariant `J` on
+shapes and its four micro steps), `SwapStoreStep` (the loop body preserves `J` and the
+reference-count equation), `SwapStoreLoop` (the loop, entry state, `drop(old_upper)`),
+`SwapStoreFinal` (`Inv`, `level_down` re-establishes it), `SwapStoreSem` (refinement of
+`swapTree`), `SwapStoreCheck` (executable `checkInv`, `treeOf`), `SwapStoreSeq` (sequences of
+swaps), `SwapStoreGarbage` (exactly which nodes are freed), `SwapStoreNeg` (regression
+witnesses), `SwapStoreGen` (general lazy `level_swap`: `InvL`, `Ev`), `SetOrderLemmas` /
+`SetOrderProof` (`set_var_order`), `PropertiesStore` (headline theorems), `DriverStore`
+(protocol `reorder-store`).
 -/
 namespace OxiddModel.Reorder.SwapStore
 open OxiddModel.Bdd OxiddModel.Bdd.Refine
